@@ -320,15 +320,14 @@ Fixpoint isort (l : list nat) : list nat :=
 
 Definition dec_op (p : Z * Z) : op :=
   let a := snd p in
-  if (a <? 0)%Z then ONop else
   let n := Z.to_nat a in
   match fst p with
   | 1%Z => OJoin
-  | 2%Z => OProtect (n / 8) (n mod 8)
-  | 3%Z => OClear n
-  | 4%Z => OSwap n
-  | 5%Z => OUse n
   | 6%Z => OScan
+  | 2%Z => if (a <? 0)%Z then ONop else OProtect (n / 8) (n mod 8)
+  | 3%Z => if (a <? 0)%Z then ONop else OClear n
+  | 4%Z => if (a <? 0)%Z then ONop else OSwap n
+  | 5%Z => if (a <? 0)%Z then ONop else OUse n
   | _ => ONop
   end.
 
